@@ -12,11 +12,16 @@ import math
 from copy import deepcopy
 from datetime import datetime
 from datetime import timedelta
+from datetime import timezone
 
 d3_time = {}
 
-milli2dt = lambda x: datetime.fromtimestamp(x / 1000.0)
-dt2milli = lambda x: x.timestamp() * 1000.0
+# Times are naive wall-clock values: convert them as if they were UTC so that
+# the result never depends on the local time zone of the process.
+milli2dt = lambda x: datetime.fromtimestamp(x / 1000.0, timezone.utc).replace(
+    tzinfo=None
+)
+dt2milli = lambda x: x.replace(tzinfo=timezone.utc).timestamp() * 1000.0
 
 # Timezones are ignored
 getTimezoneOffset = lambda x: 0
@@ -156,7 +161,7 @@ def d3_time_week_local(date):
     i = 7
     ndate = d3_time["day"](date)
     diff = ((date.isoweekday() % 7) + i) % 7
-    ndate = datetime.fromtimestamp(ndate.timestamp() - diff * 24 * 3600)
+    ndate = ndate - timedelta(days=diff)
     return ndate
 
 
@@ -171,9 +176,7 @@ def d3_time_week_number(date):
 
 d3_time["week"] = d3_time_interval(
     lambda date: d3_time_week_local(date),
-    lambda date, offset: datetime.fromtimestamp(
-        date.timestamp() + math.floor(offset) * 7 * 24 * 3600
-    ),
+    lambda date, offset: date + timedelta(days=math.floor(offset) * 7),
     lambda date: d3_time_week_number(date),
 )
 
